@@ -56,6 +56,17 @@ def gen_project(r):
             files["lib/broken.ucg"] = "let v = ;\n"
         elif how == "type":
             files["lib/broken.ucg"] = "let v = 1 + \"s\";\n"
+    elif r.random() < 0.2:
+        # the shared library fails at RUN TIME, after it has made the bindings its importers use: every importer fails, alone
+        # and in every batch alike, however many of them there are
+        files["lib/shared.ucg"] += r.choice([
+            "let boom = 1 / (val - 7);\n",
+            "let boom = fail \"shared library is broken\";\n",
+            "let boom = [1].(val);\n",
+            "let boom = select (\"nokey\") => {a = 1};\n",
+            "let boom = int(\"x\" + \"1\");\n",
+            "out toml {v = NULL};\n",
+        ])
     roles = {}
     names = []
     for i in range(n):
